@@ -289,7 +289,7 @@ def main():
         print("RESULT: a premise no longer holds (" + "; ".join(broken) + ") -> revisit DESIGN.md section 7")
         sys.exit(3)
     print(f"RESULT: premises hold on the current tree: the observed surface of C01-C18 is deterministic and "
-          f"touches nothing a simulator could own ({report['wall_s']} s)")
+          f"touches no scheduler, clock, entropy source or descriptor ({report['wall_s']} s)")
     sys.exit(0)
 
 
